@@ -115,6 +115,10 @@ type View struct {
 	FailSends int
 	// FailSendCall = k > 0: the k-th call of Send from now on fails (the board goes away in the middle of a submission)
 	FailSendCall int
+	// FailEvent: while FailEventCount > 0, a Send that carries a message of this event fails (and counts down)
+	FailEvent      string
+	FailEventCount int
+	FailRound      string // if set, only messages of this round are refused
 }
 
 var _ storage.Storage = (*View)(nil)
@@ -136,6 +140,15 @@ func (v *View) Send(msgs ...storage.Message) error {
 		v.FailSendCall--
 		if v.FailSendCall == 0 {
 			fail = true
+		}
+	}
+	if v.FailEventCount > 0 {
+		for _, m := range msgs {
+			if m.Event == v.FailEvent && (v.FailRound == "" || m.DkgRoundID == v.FailRound) {
+				fail = true
+				v.FailEventCount--
+				break
+			}
 		}
 	}
 	v.mu.Unlock()
